@@ -186,6 +186,66 @@ func TestVX_C07Huge(t *testing.T) {
 			}
 		}
 	}
+	// (c) additional data of 2^31+37, 2^32-16+3 and 2^32+21 bytes whose first block is not zero (all-zero additional data
+	// keeps GHASH at zero however many blocks are skipped): the authentic message for it is accepted; the same message is
+	// rejected when one bit of the first block of the additional data is flipped, and when the additional data is cut to
+	// its length mod 2^32 or mod 2^31
+	{
+		var first gcmref.Block
+		copy(first[:], vx.Fill("c07huge-first", 16))
+		if !bytes.Equal(gcmref.SealSparseAAD(refCipher(key), make([]byte, 12), []byte("abc"), first, 100, 16), gcmref.Seal(refCipher(key), make([]byte, 12), []byte("abc"), append(append([]byte{}, first[:]...), make([]byte, 84)...), 16)) {
+			panic("harness: sparse-AAD shortcut disagrees with gcmref")
+		}
+		for _, L := range []uint64{1<<31 + 37, 1<<32 - 16 + 3, 1<<32 + 21} {
+			for _, par := range [][2]int{{12, 16}, {16, 12}} {
+				n++
+				if !vx.MineIdx(n) {
+					continue
+				}
+				nl, tag := par[0], par[1]
+				a, path, err := newAEAD(key, nl, tag)
+				if err != nil {
+					r.Add("unsupported_on_this_path", 1)
+					continue
+				}
+				r.Eval(4)
+				cs := c07hugeCase{"sparse-aad", L, nl, tag}
+				nonce, pt := fillLen("nonce", nl), fillLen("pt", 19)
+				sealed := gcmref.SealSparseAAD(refCipher(key), nonce, pt, first, L, tag)
+				aad, err := syscall.Mmap(-1, 0, int(L), syscall.PROT_READ|syscall.PROT_WRITE, syscall.MAP_ANON|syscall.MAP_PRIVATE|syscall.MAP_NORESERVE)
+				if err != nil {
+					r.NotExhaustive(fmt.Sprintf("no address space for %d bytes of additional data", L))
+					continue
+				}
+				copy(aad, first[:])
+				try := func(name string, ad []byte, accept bool) {
+					var back []byte
+					var oerr error
+					kind, msg := vx.Try(func() { back, oerr = a.Open(nil, nonce, sealed, ad) })
+					switch {
+					case kind != "":
+						r.Violation("open:huge:panic", fmt.Sprintf("%s: %s", name, msg), cs)
+					case accept && (oerr != nil || !bytes.Equal(back, pt)):
+						r.Violation("open:huge:rejects-authentic:aad", fmt.Sprintf("%s (additional data %d bytes, nonce=%d, tag=%d, path=%s): authentic message rejected: %v", name, L, nl, tag, path, oerr), cs)
+					case !accept && oerr == nil:
+						r.Violation("open:huge:accepts-modified-aad", fmt.Sprintf("%s (additional data %d bytes, nonce=%d, tag=%d, path=%s): accepted", name, L, nl, tag, path), cs)
+					}
+				}
+				try("authentic", aad, true)
+				aad[3] ^= 0x40
+				try("one bit of the first block of the additional data flipped", aad, false)
+				aad[3] ^= 0x40
+				for _, bits := range []uint{32, 31} {
+					if cut := L & (1<<bits - 1); cut != L {
+						try(fmt.Sprintf("additional data cut to its length mod 2^%d", bits), aad[:cut], false)
+					}
+				}
+				syscall.Munmap(aad)
+				r.Shape(fmt.Sprintf("sparse-aad:%d:n%d:t%d:%s", L, nl, tag, path))
+				r.Sample(cs)
+			}
+		}
+	}
 	for _, par := range [][2]int{{12, 16}, {12, 12}, {16, 16}} {
 		n++
 		if !vx.MineIdx(n) {
